@@ -279,7 +279,9 @@ def r5(ctx):
     ctx.sub(c01.r7)                          # which follows the stored back-pointers
     from . import c19
     ctx.sub(c19.r3)                          # the compiled kernel accepts a per-pair vector (no explicit scalar-only signature)
-    ctx.sub(c01.r9, only=("handover:price",))   # and the relabel phase hands it the price vector as it stands (no "constant vector" collapse)
+    # and the relabel phase hands it the price vector as it stands (no "constant vector" collapse), and stores what that very call
+    # returned - not a memo keyed on something coarser than the per-pair vector (round 8, C07-u2: key = max(beta), stale boundaries)
+    ctx.sub(c01.r9, only=("handover:price", "handover:point_labels", "handover:label_assignment_cost"))
 
 
 @rule("C07", "R6", "RANGE", "each series is stacked exactly (no window mixes two series; no series loses or gains rows)")
